@@ -317,7 +317,7 @@ func c27SafeLocal(s string) bool {
 }
 
 func c27GoodPrefix(p string) bool {
-	return p == "" || (len(p) >= 2 && c27SafeLocal(p))
+	return p == "" || c27SafeLocal(p)
 }
 
 // ---------------------------------------------------------------------------------------------
@@ -850,19 +850,19 @@ func c27OrigOracle(c *Case, l, what, u, pfx, got string) {
 		c.Oracle(what+"-rewritten", fmt.Sprintf("%q: result %q is neither the fallback nor the (truncated) input", l, got))
 		return
 	}
-	if pfx != "" {
-		if !strings.HasPrefix(got, pfx) {
-			c.Oracle(what+"-offsite", fmt.Sprintf("%q: %q is not under the prefix %q", l, got, pfx))
-		}
+	// every kept target must be an origin-relative path under the prefix — for EVERY input, also a
+	// scheme-relative ("//host"), triple-slash ("///host") or backslash ("/\\host", "\\\\host") one,
+	// with an empty or "/" prefix as well: a browser resolves those against another origin
+	foreign := "original-url-offsite"
+	if what == "callback-redirect" {
+		foreign = "redirect-to-foreign-origin"
+	}
+	if !c27SafeLocal(got) {
+		c.Oracle(foreign, fmt.Sprintf("%q: %q is not an origin-relative path (a browser leaves the origin)", l, got))
 		return
 	}
-	// empty prefix: the handlers only ever pass "/" or "/?query" (checked by the page op); on that
-	// domain the result must stay an origin-relative path.
-	if c27SafeLocal(u) && !c27SafeLocal(got) {
-		c.Oracle(what+"-offsite", fmt.Sprintf("%q: %q is not an origin-relative path", l, got))
-	}
-	if got != "" && !c27SafeLocal(got) {
-		c.Stat(what + "-kept-nonlocal-input")
+	if !strings.HasPrefix(got, pfx) {
+		c.Oracle(foreign, fmt.Sprintf("%q: %q is not under the prefix %q", l, got, pfx))
 	}
 }
 
